@@ -89,9 +89,10 @@ def main():
                                            padding=[True, False], return_set=[False, True],
                                            taus=[0, 1, 2] if not quick else [0, 2], comp_ops=ops, props=P)),
           bounds=dict(len='0..2'))
-    ck.e2('join-1x1-len3', h_ed.make(dict(entry='ed_join', nl=1, nr=1, lens=[3], q=[2], padding=[True],
+    if not quick:
+      ck.e2('join-1x1-len3', h_ed.make(dict(entry='ed_join', nl=1, nr=1, lens=[3], q=[2], padding=[True],
                                           return_set=[False], taus=[1], comp_ops=['<='], props=P)),
-          bounds=dict(len=3))
+            bounds=dict(len=3))
     ck.e2('join-1x2-flags', h_ed.make(dict(entry='ed_join', nl=1, nr=2, lens=[0, 1], q=[2],
                                            padding=[True], return_set=[False, True], taus=[1], comp_ops=['<='],
                                            missing='sym', allow_missing=[False, True], n_jobs=[1, 2],
@@ -102,6 +103,18 @@ def main():
     ck.e2('join-2x1-context', h_ed.make(dict(entry='ed_join', nl=2, nr=1, lens_l=[1] if quick else [1, 2], lens_r=[2], q=[2],
                                              padding=[True] if quick else [True, False], return_set=[False],
                                              taus=[1], comp_ops=['<='] if quick else ['<=', '='], props=P)), bounds=dict(len='1..2', rows='2x1'))
+    # rows that produce no q-grams (unpadded tokenizer, strings shorter than q) before matching rows
+    ck.e2('join-2x1-unpadded', h_ed.make(dict(entry='ed_join', nl=2, nr=1, lens_l=[0, 1, 2] if not quick else [1, 2],
+                                              lens_r=[2], q=[2], padding=[False], return_set=[False],
+                                              taus=[0, 1], comp_ops=['<='], props=P)), bounds=dict(rows='2x1', padding=False))
+    # small-alphabet mode: strings of length 3..4 over two symbolic letters (many repeated q-grams)
+    ck.e2('join-1x1-two-letters', h_ed.make(dict(entry='ed_join', nl=1, nr=1, lens=[3, 4], alphabet=2, q=[2],
+                                                 padding=[True], return_set=[False], taus=[1, 2],
+                                                 comp_ops=['<=', '<'] if not quick else ['<='], props=P)),
+          bounds=dict(len='3..4', alphabet='2 symbolic letters'))
+    ck.e2('join-2x1-two-letters', h_ed.make(dict(entry='ed_join', nl=2, nr=1, lens_l=[2, 3], lens_r=[3], alphabet=2,
+                                                 q=[2], padding=[True], return_set=[False], taus=[1] if quick else [1, 2],
+                                                 comp_ops=['<='], props=P)), bounds=dict(len='2..3', alphabet=2, rows='2x1'))
     if not quick:
         ck.e2('join-1x1-len23-q3', h_ed.make(dict(entry='ed_join', nl=1, nr=1, lens=[2, 3], q=[3], padding=[True],
                                                   return_set=[False], taus=[1, 2], comp_ops=['<='], props=P)))
